@@ -116,6 +116,11 @@ impl LineParser {
             )
         }
 
+        // an exit code that does not fit is no output expectation
+        if EXIT_CODE_EXPRESSION.is_match(line) && extract_exit_code(line).is_none() {
+            bail!("line {}: exit code {} is out of range", index + 1, line)
+        }
+
         if let Some(exit_code) = extract_exit_code(line) {
             if self.exit_code.is_some() {
                 bail!("line {}: exit code provided multiple times", index + 1)
